@@ -19,7 +19,7 @@ fn pb(v: &Val) -> PathBuf {
     PathBuf::from(OsStr::from_bytes(&v.bytes()))
 }
 
-/// (0 path depth type path_is_symlink) | (1 loop_child) | (2 io_error_path) | (3) other error | (5 ()) panic
+/// (0 path depth type path_is_symlink has_partial_error) | (1 loop_child) | (2 io_error_path) | (3) other error | (5 ()) panic
 fn out_of(r: Result<DirEntry, Error>) -> Val {
     match r {
         Ok(d) => {
@@ -35,6 +35,8 @@ fn out_of(r: Result<DirEntry, Error>) -> Val {
                 Val::of_us(d.depth()),
                 Val::N(ty),
                 Val::of_bool(d.path_is_symlink()),
+                // DirEntry::error(): the (partial) error `Ignore::add_child` reported for this directory's ignore files
+                Val::of_bool(d.error().is_some()),
             ])
         }
         Err(e) => err_val(&e, None),
@@ -51,7 +53,7 @@ fn err_val(e: &Error, path: Option<&std::path::Path>) -> Val {
             Val::of_bytes(path.map(|p| p.as_os_str().as_bytes()).unwrap_or(b"?")),
         ]),
         Error::Partial(_) => Val::L(vec![Val::N(4)]),
-        _ => Val::L(vec![Val::N(3)]),
+        other => Val::L(vec![Val::N(3), Val::of_bytes(other.to_string().as_bytes())]),
     }
 }
 
@@ -165,6 +167,7 @@ fn builder(v: &Val) -> WalkBuilder {
         .ignore(true)
         .git_global(false)
         .git_ignore(false)
+        .add_custom_ignore_filename(".rgignore")
         .git_exclude(false)
         .threads(v.fld(3).us());
     if c.fld(4).b() {
